@@ -534,10 +534,17 @@ struct Agg
 };
 
 static uint64_t
+profile_base(uint64_t base, const std::string& property,
+             const std::string& profile)
+{
+    return mix64(base, hash_str(property + "/" + profile));
+}
+
+static uint64_t
 run_seed(uint64_t base, const std::string& property, const std::string& profile,
          uint64_t idx)
 {
-    return mix64(mix64(base, hash_str(property + "/" + profile)), idx);
+    return mix64(profile_base(base, property, profile), idx);
 }
 
 static std::string
@@ -601,9 +608,9 @@ worker_main(int widx, int nworkers, const CheckSpec& spec, Harness* H,
                       set_active_property(spec.property);
                       std::map<std::string, uint64_t> bp;
                       for (uint64_t i = i0; i < i1; ++i) {
-                          uint64_t s =
-                            run_seed(base_seed, spec.property, prof.name, i);
-                          Plan p = H->generate(s, spec.property, prof.name);
+                          Plan p = H->generate_run(
+                            profile_base(base_seed, spec.property, prof.name),
+                            i, spec.property, prof.name);
                           H->execute(p);
                           RunResult rr;
                           end_run(&rr);
@@ -640,10 +647,10 @@ worker_main(int widx, int nworkers, const CheckSpec& spec, Harness* H,
                           a.nontrivial++, a.fps.insert(fp);
                       if (nt || a.runs == 1) {
                           if (a.samples.size() < want_samples) {
-                              uint64_t s = run_seed(base_seed, spec.property,
-                                                    prof.name, idx);
-                              Plan p =
-                                H->generate(s, spec.property, prof.name);
+                              Plan p = H->generate_run(
+                                profile_base(base_seed, spec.property,
+                                             prof.name),
+                                idx, spec.property, prof.name);
                               a.samples.push_back(plan_to_text(p));
                           }
                       }
@@ -1466,7 +1473,8 @@ check_cmd(const std::string& property, const std::string& tier, uint64_t seed,
                (unsigned long long)v.seed, v.cls.c_str(), v.detail.c_str());
         for (auto& l : v.log)
             printf("  log: %s\n", l.c_str());
-        Plan p = H->generate(v.seed, property, v.profile);
+        Plan p = H->generate_run(profile_base(seed, property, v.profile),
+                                 v.idx, property, v.profile);
         p.has_events = true;
         p.events = v.sched;
         size_t ops0 = p.ops.size(), ev0 = p.events.size();
@@ -1562,8 +1570,9 @@ runone_cmd(const std::string& property, const std::string& profile,
         return 2;
     Harness* H = find_harness(spec->harness);
     H->zygote_init();
-    uint64_t s = run_seed(seed, property, profile, idx);
-    Plan p = H->generate(s, property, profile);
+    Plan p =
+      H->generate_run(profile_base(seed, property, profile), idx, property,
+                      profile);
     if (print_plan)
         printf("%s", plan_to_text(p).c_str());
     RunOutcome ro = run_plan(H, p);
